@@ -11,7 +11,9 @@ func init() {
 	std := func(rule string) propSpec {
 		return propSpec{Mode: "mapctl", Validate: true, Rule: rule, Assume: stdAssume, BudgetS: 20, QuickDeadS: 420, ThorDeadS: 3000}
 	}
-	props["C01"] = std("cases = canonical AddEdge histories (restricted-growth edge lists) x configuration grid, each enumerated exactly once; every case is non-trivial for C01 (Layout must return); distinct_observations counts distinct returned layouts")
+	c01 := std("cases = canonical AddEdge histories (restricted-growth edge lists) x configuration grid, each enumerated exactly once; every case is non-trivial for C01 (Layout must return); distinct_observations counts distinct returned layouts")
+	c01.FatalIsViolation = true
+	props["C01"] = c01
 	props["C02"] = std("non-trivial = input with >= 2 edges; cases are distinct by construction (canonical enumeration x configuration)")
 	props["C03"] = std("non-trivial = input with >= 2 non-self-loop edges (some band structure exists)")
 }
@@ -55,4 +57,13 @@ func init() {
 	props["C15"] = propSpec{Mode: "sched", Validate: false, Race: true, BudgetS: 60, QuickDeadS: 420, ThorDeadS: 3000,
 		Assume: append([]string{"scheduling points are the statements that mention a package-level variable of the module (found by the type-checked instrumenter); interleavings inside one statement and sharing that does not pass through a package-level variable are only covered by the separate free-running -race pass, which is sampling"}, stdAssume...),
 		Rule:   "a case = one scenario of k concurrent Layout calls; states = distinct scheduler state keys (per-thread access counts + per-thread hash of what it read + global snapshot), transitions = (state, granted thread) pairs; every scenario is non-trivial (>= 2 threads over shared package-level variables)"}
+}
+
+func init() {
+	g := propSpec{Mode: "mapctl", Validate: true, BudgetS: 5, QuickDeadS: 420, ThorDeadS: 3000, FatalIsViolation: true,
+		Assume: []string{"Go toolchain and math library", "real-valued corridor coordinates are represented by integer grids; the curve parameter by 401 samples per piece", "the reference (visibility-graph Dijkstra with exact segment-in-corridor tests) is correct"}}
+	g.Rule = "a case = (corridor, start point, end point); non-trivial = shortest path with >= 3 points (it bends around a corner)"
+	props["C19"] = g
+	g.Rule = "a case = one polynomial (roots pass) or one corridor whose shortest path has >= 3 points (fit pass); every such case is non-trivial"
+	props["C20"] = g
 }
